@@ -1099,4 +1099,60 @@ Proof.
   destruct (Htx ltac:(discriminate)) as (H1 & H2 & H3). tauto.
 Qed.
 
+(* ---- a station that comes online records its first instant of bus activity ---- *)
+
+Lemma goi_idem f now l f0 : lba_get_or_insert f now = (l, f0) -> lba_get_or_insert f0 now = (l, f0).
+Proof.
+  unfold lba_get_or_insert. destruct (f_lba f) as [l0|] eqn:E; intros H; injection H as <- <-.
+  - rewrite E. reflexivity.
+  - cbn. reflexivity.
+Qed.
+
+Lemma do_listen_token_goi f now (w : W) l f0 :
+  lba_get_or_insert f now = (l, f0) -> do_listen_token A f0 now w = do_listen_token A f now w.
+Proof.
+  intros E. pose proof (goi_idem _ _ _ _ E) as E0. pose proof (lba_get_or_insert_same _ _ _ _ E) as ((_ & _ & _ & _ & Hs & _) & _).
+  unfold do_listen_token, assert_entry, handle_lost_token. rewrite E, E0, Hs. reflexivity.
+Qed.
+
+Lemma do_listen_token_lba_some now f (w : W) f' w' :
+  do_listen_token A f now w = Ok (f', w') -> w_tx w = None -> f_lba f' <> None \/ rst now f'.
+Proof.
+  intros H Hw. destruct (lba_get_or_insert f now) as [l f0] eqn:E.
+  rewrite <- (do_listen_token_goi _ _ _ _ _ E) in H.
+  pose proof (lba_get_or_insert_same _ _ _ _ E) as (_ & Hl & _).
+  destruct (do_listen_token_bk now _ _ _ _ H Hw) as (_ & _ & _ & L).
+  destruct (w_tx w') as [wire|]; [left; rewrite L; discriminate|].
+  destruct L as [L|R]; [left|right; exact R]. rewrite Hl in L.
+  destruct L as [-> | [-> | (_ & ->)]]; discriminate.
+Qed.
+
+Lemma poll_online_lba_some now f pin (apps : list A) f' o apps' calls :
+  poll ops f now pin apps = Ok (f', o, apps', calls) ->
+  f_conn f = ConnOnline -> f_state f = Offline -> f_lba f = None ->
+  f_lba f' <> None \/ rst now f'.
+Proof.
+  unfold poll, poll_traced. intros H Hc Hs Hl.
+  destruct (poll_inner ops f now (tx_busy pin) (mkWorld (rx pin) None apps [] [])) as [[f1 w1]| |] eqn:E; cbn [bind] in H; try discriminate H.
+  injection H as <- _ _ _. revert E. set (w := mkWorld (rx pin) None apps [] []).
+  unfold poll_inner. rewrite Hc, Hs. cbn [kind_of online_entry_kind].
+  unfold trans, transition_listen_token. rewrite Hs. unfold assert_kind. cbn [kind_of].
+  change (may_transition_listen_token KOffline) with true. cbn [bind kind_of].
+  set (f2 := set_st f (ListenToken None 0)). set (w2 := note A w _).
+  unfold check_for_ongoing_transmision.
+  destruct (mark_bus_activity_spec f2 now) as (ML & _ & MS & _).
+  assert (Hl2 : f_lba f2 = None) by exact Hl. rewrite Hl2. rewrite andb_false_r, orb_false_r.
+  destruct (tx_busy pin).
+  { intros E. injection E as <- _. left. rewrite ML. discriminate. }
+  unfold check_for_bus_activity.
+  destruct (Nat.ltb (f_pending f2) (length (w_rx w2))).
+  - cbn [kind_of f_state set_pending]. rewrite MS.
+    cbn [f2 f_state set_st kind_of poll_dispatch]. intros E.
+    destruct (do_listen_token_bk now _ _ _ _ E eq_refl) as (_ & _ & _ & L).
+    destruct (w_tx w1) as [wire|]; [left; rewrite L; discriminate|].
+    destruct L as [L|R]; [left|right; exact R]. cbn [f_lba set_pending] in L. rewrite ML in L.
+    destruct L as [-> | [-> | (_ & ->)]]; discriminate.
+  - cbn [f2 f_state set_st kind_of poll_dispatch]. intros E. exact (do_listen_token_lba_some now _ _ _ _ E eq_refl).
+Qed.
+
 End BK.
